@@ -87,6 +87,110 @@ func c02Consumption(c *Ctx, p *Prog, pi *parserInfo) {
 			}():
 				c.OK("C02-R9", key, pos, "Next(scan index + 1): the whole matched sequence")
 				continue
+			case func() bool { // base + k, where input[base+k-1] is the last byte looked at on the way here
+				vb, k := linBase(n)
+				if vb == nil || k < 1 {
+					return false
+				}
+				if call, isCall := vb.(*ssa.Call); isCall {
+					if bi, isB := call.Call.Value.(*ssa.Builtin); isB && bi.Name() == "len" {
+						return false // prefix idioms below
+					}
+				}
+				// smallest value the base can have: a phi of constants, else zero if provably non-negative
+				lb := int64(0)
+				if phi, isPhi := vb.(*ssa.Phi); isPhi {
+					lb = 1 << 40
+					for _, e := range phi.Edges {
+						c, isC := constInt(e)
+						if !isC {
+							lb = -1
+							break
+						}
+						if c < lb {
+							lb = c
+						}
+					}
+				} else if okN, _ := nonNegative(vb, sites[0], 0); !okN {
+					lb = -1
+				}
+				if lb < 0 {
+					return false
+				}
+				last, bad := false, false
+				eachInstr(fn, func(in ssa.Instruction) {
+					ia, isIA := in.(*ssa.IndexAddr)
+					if !isIA || ia.X != input || !in.Block().Dominates(b) {
+						return
+					}
+					ib, off := linBase(ia.Index)
+					switch {
+					case ib == nil: // constant index
+						if off > lb+k-1 {
+							bad = true
+						}
+					case ib == vb || sameValue(ib, vb):
+						if off > k-1 {
+							bad = true
+						}
+						if off == k-1 {
+							last = true
+						}
+					default:
+						bad = true
+					}
+				})
+				return last && !bad
+			}():
+				c.OK("C02-R9", key, pos, "Next(base+k) where input[base+k-1] is the last byte examined: the matched sequence")
+				continue
+			case func() bool { // len(P)+k under HasPrefix(input, P), the k bytes after the prefix having been looked at
+				pb, k := linBase(n)
+				call, ok := pb.(*ssa.Call)
+				if !ok || k < 1 {
+					return false
+				}
+				bi, isB := call.Call.Value.(*ssa.Builtin)
+				if !isB || bi.Name() != "len" {
+					return false
+				}
+				pfx := call.Call.Args[0]
+				under := false
+				for _, g := range rawGuardsAt(b) {
+					if gc, okC := g.Cond.(*ssa.Call); okC && g.Positive && (calleeName(&gc.Call) == "bytes.HasPrefix") && len(gc.Call.Args) == 2 && sliceRoot(gc.Call.Args[0]) == input && sameValue(gc.Call.Args[1], pfx) {
+						if _, isSl := gc.Call.Args[0].(*ssa.Slice); !isSl {
+							under = true
+						}
+					}
+				}
+				if !under {
+					return false
+				}
+				// input[len(P)+j] examined on the way, for every j < k, and nothing beyond
+				seen := map[int64]bool{}
+				beyond := false
+				eachInstr(fn, func(in ssa.Instruction) {
+					ia, isIA := in.(*ssa.IndexAddr)
+					if !isIA || ia.X != input || !in.Block().Dominates(b) {
+						return
+					}
+					ib, off := linBase(ia.Index)
+					if ib != nil && sameValue(ib, pb) {
+						if off >= k {
+							beyond = true
+						}
+						seen[off] = true
+					}
+				})
+				for j := int64(0); j < k; j++ {
+					if !seen[j] {
+						return false
+					}
+				}
+				return !beyond
+			}():
+				c.OK("C02-R9", key, pos, "Next(len(P)+k) under HasPrefix(input, P), after looking at the k bytes that follow the prefix")
+				continue
 			case func() bool { // len(P) under HasPrefix(input, P)
 				call, ok := n.(*ssa.Call)
 				if !ok {
